@@ -69,6 +69,18 @@ def normalize_accesses(events):
     (`s[b..b+k]`), and the events that merely form such a view are dropped, so that the rules see one shape."""
     import copy
     out = []
+    # `s.split_at(k)` hands out `s[..k]` (its second half is a view like `s[k..]`): the access is that of the first half
+    ev2 = []
+    for e in events:
+        if e.kind == "call" and e.info.get("model") == "slice_split_at" and len(e.args) == 2:
+            e2 = copy.copy(e)
+            e2.info = dict(e.info)
+            e2.info["model"] = "index"
+            e2.args = (e.args[0], ("agg", "std::ops::RangeTo::RangeTo", (e.args[1],)))
+            ev2.append(e2)
+        else:
+            ev2.append(e)
+    events = ev2
     acc = [e for e in events if e.kind == "call" and e.info.get("model") in ("index", "slice_get") and len(e.args) == 2]
     for e in events:
         if e not in acc:
